@@ -354,6 +354,20 @@ def model_cases(job, model):
             pass
     return out
 
+def rel_probe_cases():
+    """valid civil seconds that differ in two fields in opposite directions (every pair of field positions), and in one field only:
+    the cases in which a wrong guard in the lexicographic comparison shows"""
+    base = [2015, 6, 15, 12, 30, 30]
+    out = []
+    for i in range(6):
+        hi = list(base); hi[i] += 1
+        out.append({"kind": "rel", "a": hi, "b": base}); out.append({"kind": "rel", "a": base, "b": hi})
+        for j in range(i + 1, 6):
+            A = list(base); B = list(base); A[i] += 1; B[j] += 1          # A greater in the more significant field, smaller in the less significant one
+            out.append({"kind": "rel", "a": A, "b": B}); out.append({"kind": "rel", "a": B, "b": A})
+    out.append({"kind": "rel", "a": base, "b": base})
+    return out
+
 def diff_probe_cases():
     """small native probe set used when a difference/scale_add obligation fails: extremes where the care matters"""
     out = []
@@ -390,6 +404,7 @@ def run(tier):
             hit = None
             cases = model_cases(r["name"], fobj["model"])
             if r["name"].startswith(("difference", "scale_add", "day_difference", "ymd_ord")): cases += diff_probe_cases()
+            if r["name"].startswith("rel"): cases += rel_probe_cases()
             for c in cases:
                 w = replay(c)
                 if w: hit = (c, w); break
